@@ -38,7 +38,8 @@ RULE = ("pairs: a generated base history (as C03: 1-3 key columns, boundary-rich
 ASSUMPTIONS = base.ASSUMPTIONS + [
     "equal positions give equal draws because a draw is the element of the seeded block at the simulant's position "
     "(C02); the sims stream checks the draws themselves (two decision points, every step)",
-    "two simulations are comparable when seed, block size, key-column dtypes (incl. the datetime unit) agree",
+    "two simulations are comparable when seed and block size agree; the storage unit of datetime key columns may differ "
+    "(identity is the instant: commit 11362e66) and is varied on purpose between the two members of a pair",
 ]
 TRUSTED = [
     "C04: positions are observed through the public IndexMap.__getitem__ (sims: on the IndexMap instance seen by a "
@@ -79,7 +80,8 @@ def fresh_key(rng, like, dtypes, size, seen, j):
         k = []
         for c, dt in zip(like, dtypes):
             if dt.startswith("d:"):
-                k.append(["d", c[1] + rng.randint(-10 ** 7, 10 ** 7) * rng.choice([1, 1000, 10 ** 6])])
+                v = c[1] + rng.randint(-10 ** 7, 10 ** 7) * base.NPU[dt[2:]]
+                k.append(["d", v if abs(v) < 9 * 10 ** 18 else c[1] + base.NPU[dt[2:]] * rng.randint(1, 999)])   # inside the ns range
             elif dt == "i":
                 k.append(["i", base.gen_int(rng, rng.choice(["small", "seq", "big", "mult"]), j, size)])
             else:
@@ -152,6 +154,11 @@ def derive(rng, A, kinds):
             if l < 0:
                 st["labels"][i] = nxt
                 nxt += 1
+    if "reunit" in kinds:
+        # the counterfactual stores the same instants (and clock) in other units: s / ms / us / ns
+        base.fit_units(steps, rng, reunit=True)
+    else:
+        base.fit_units(steps, rng)
     if "relabel" in kinds:
         mode = rng.choice(["offset", "consecutive", "reverse", "sparse"])
         allv = [l for st in steps for l in st["labels"]]
@@ -173,7 +180,8 @@ def derive(rng, A, kinds):
 
 KIND_SETS = [["permute"], ["relabel"], ["superset"], ["subset"], ["split"], ["permute", "relabel"],
              ["superset", "permute"], ["superset", "relabel", "permute"], ["split", "permute"], ["split", "relabel"],
-             ["subset", "superset", "permute", "relabel"], ["merge"], ["merge", "permute"], []]
+             ["subset", "superset", "permute", "relabel"], ["merge"], ["merge", "permute"], [],
+             ["reunit"], ["reunit"], ["reunit", "permute"], ["reunit", "relabel", "superset"], ["reunit", "split"]]
 
 
 def gen_pair(rng):
@@ -186,7 +194,10 @@ def gen_pair(rng):
         for i in range(1, len(A["steps"])):
             if rng.random() < 0.5:
                 A["steps"][i]["t"] = A["steps"][i - 1]["t"]
-    kinds = rng.choice(KIND_SETS)
+    kinds = list(rng.choice(KIND_SETS))
+    has_dates = any(dt.startswith("d:") for st in A["steps"] for dt in st["dtypes"]) or any(st["t"][0] == "d" for st in A["steps"])
+    if has_dates and "reunit" not in kinds and rng.random() < 0.5:
+        kinds.append("reunit")
     return {"A": A, "B": derive(rng, A, kinds), "kinds": kinds}
 
 
@@ -201,10 +212,10 @@ def corpus_pairs():
         {"A": mk(10, [one([0, 1, 2, 3], [5, 15, 25, 3], 1), one([4], [8], 2)]),
          "B": mk(10, [one([10, 11, 12], [3, 40, 15], 1), one([13, 14], [77, 8], 2)]), "kinds": ["subset", "superset", "relabel"]},
         # entrance_time + age, permuted and relabelled
-        {"A": mk(50, [{"dtypes": ["d:us", "f"], "labels": [0, 1, 2], "t": ["d", 1120262400000000, "us"],
-                       "keys": [[["d", 1120262400000000], f(30.5)], [["d", 1120262400000000], f(3.25)], [["d", 1120262400000000], f(77.125)]]}]),
-         "B": mk(50, [{"dtypes": ["d:us", "f"], "labels": [7, 5, 9], "t": ["d", 1120262400000000, "us"],
-                       "keys": [[["d", 1120262400000000], f(77.125)], [["d", 1120262400000000], f(30.5)], [["d", 1120262400000000], f(3.25)]]}]),
+        {"A": mk(50, [{"dtypes": ["d:us", "f"], "labels": [0, 1, 2], "t": ["d", 1120262400000000000, "us"],
+                       "keys": [[["d", 1120262400000000000], f(30.5)], [["d", 1120262400000000000], f(3.25)], [["d", 1120262400000000000], f(77.125)]]}]),
+         "B": mk(50, [{"dtypes": ["d:s", "f"], "labels": [7, 5, 9], "t": ["d", 1120262400000000000, "ns"],
+                       "keys": [[["d", 1120262400000000000], f(77.125)], [["d", 1120262400000000000], f(30.5)], [["d", 1120262400000000000], f(3.25)]]}]),
          "kinds": ["permute", "relabel"]},
     ]
 
@@ -374,7 +385,8 @@ def gen_sim(rng):
         pop_b = pop                                              # the block size must agree between the scenarios
     return {"schema": schema, "pop": [pop, pop_b], "sched": [sched_a, sched_b], "order": [rng.choice(["id", "id", "rev", "shuf"]),
             rng.choice(["id", "rev", "shuf"])], "map_size": map_size, "seed": rng.randint(0, 99), "aseed": rng.getrandbits(30),
-            "step_days": rng.choice([1, 1, 7, 28]), "start": [rng.choice([1990, 2005, 2020]), rng.randint(1, 12), rng.randint(1, 28)]}
+            "step_days": rng.choice([1, 1, 7, 28]), "start": [rng.choice([1990, 2005, 2020]), rng.randint(1, 12), rng.randint(1, 28)],
+            "et_units": [rng.choice(["us", "ns", "s", "ms"]), rng.choice(["us", "ns", "s", "ms"])]}
 
 
 def corpus_sims():
@@ -382,7 +394,9 @@ def corpus_sims():
         {"schema": "uid", "pop": [5, 5], "sched": [[2, 0, 3], [4, 1, 3]], "order": ["id", "rev"], "map_size": 0, "seed": 1,
          "aseed": 7, "step_days": 1, "start": [2005, 7, 1]},
         {"schema": "et_age", "pop": [4, 4], "sched": [[1, 1, 1, 1], [3, 3, 3, 3]], "order": ["id", "shuf"], "map_size": 0, "seed": 0,
-         "aseed": 9, "step_days": 28, "start": [2020, 1, 1]},
+         "aseed": 9, "step_days": 28, "start": [2020, 1, 1], "et_units": ["us", "ns"]},
+        {"schema": "et_age", "pop": [5, 5], "sched": [[2, 2, 0], [2, 1, 3]], "order": ["id", "rev"], "map_size": 0, "seed": 3,
+         "aseed": 4, "step_days": 1, "start": [2005, 7, 1], "et_units": ["s", "ms"]},
     ]
 
 
@@ -435,7 +449,7 @@ def make_population(case, which, log):
                 self.rng.shuffle(vals)
             self.cohort += 1
             df = pd.DataFrame(index=pop_data.index)
-            df["entrance_time"] = pop_data.creation_time
+            df["entrance_time"] = pd.Series(pop_data.creation_time, index=pop_data.index).dt.as_unit(case.get("et_units", ["us", "us"])[which])
             if case["schema"] == "uid":
                 df["uid"] = [int(v) for v in vals]
                 df["age"] = 0.0
@@ -476,7 +490,7 @@ def _cell_of(col):
     dt = str(col.dtype)
     m = re.match(r"datetime64\[(\w+)\]", dt)
     if m:
-        return [("d", int(v)) for v in col.to_numpy().view("i8")], f"d:{m.group(1)}"
+        return [("d", int(v) * base.NPU[m.group(1)]) for v in col.to_numpy().view("i8")], f"d:{m.group(1)}"
     if dt == "int64":
         return [("i", int(v)) for v in col.to_numpy()], "i"
     if dt == "float64":
@@ -511,7 +525,7 @@ def run_one_sim(case, which):
         keys = [[list(cols[j][0][i]) for j in range(len(cols))] for i in range(len(new_keys))]
         labels = [int(l) for l in new_keys.index]
         if isinstance(clock_time, pd.Timestamp):
-            t = ["d", int(clock_time.asm8.view("i8")), clock_time.unit]
+            t = ["d", int(clock_time.as_unit("ns").value), clock_time.unit]
         else:
             t = ["i", int(clock_time)]
         st = {"dtypes": [c[1] for c in cols], "labels": labels, "keys": keys, "t": t}
